@@ -203,6 +203,121 @@ func c10DoubleBilling(ctx *Ctx, i int, drv int) {
 	ctx.Emit(Case{I: i, Kind: "scheduled-same-node-" + driverNames[drv], Desc: map[string]interface{}{"charged": charged.String(), "span_ns": int64(5 * time.Minute)}, Monitor: mon})
 }
 
+// ---------- (ii-b) a chain of overlapping keep-alives of one node ----------
+
+// gateStore holds every GetNode of the watched node (after the read) until the harness lets it go.
+type gateStore struct {
+	store.Store
+	watch   store.NodeID
+	mu      sync.Mutex
+	armed   bool
+	arrived chan struct{}
+	release chan struct{}
+	open    chan struct{} // closed: nothing is held any more
+}
+
+func (g *gateStore) GetNode(id store.NodeID) (*store.Node, error) {
+	n, err := g.Store.GetNode(id)
+	g.mu.Lock()
+	hold := g.armed && id == g.watch
+	g.mu.Unlock()
+	if hold {
+		g.arrived <- struct{}{}
+		select {
+		case <-g.release:
+		case <-g.open:
+		case <-time.After(5 * time.Second):
+		}
+	}
+	return n, err
+}
+
+// c10UpdateChain: keep-alive A of a client is in progress, B queues behind it, A ends, B starts,
+// C arrives while B is in progress.  Updates of one node must run one at a time: C must not read
+// the node before B has recorded its check-in, and the time billed over the whole chain cannot
+// exceed the time that passed.
+func c10UpdateChain(ctx *Ctx, i int, drv int) {
+	gs := &gateStore{arrived: make(chan struct{}, 16), release: make(chan struct{}, 16), open: make(chan struct{})}
+	cfg := worldCfg{Drv: drv, Price: "60000000000", IntervalNs: 60e9, Settle: true} // 1 credit per nanosecond
+	cfg.wrap = func(s store.Store) store.Store { gs.Store = s; return gs }
+	w := newWorld(cfg)
+	defer w.Close()
+	w.aliasAll()
+	w.applyPOp(&POp{Op: "connect", Node: "h1", Host: true, Kind: "geth"})
+	w.applyPOp(&POp{Op: "connect", Node: "c1", Kind: "geth"})
+	w.useRealClk = true
+	if _, err := w.update("c1", []string{"h1"}, 1); err != nil {
+		fatal("%v", err)
+	}
+	if _, err := w.update("h1", nil, 2); err != nil {
+		fatal("%v", err)
+	}
+	c1 := store.NodeID(nodeIDOf("c1"))
+	n0, _ := w.st.GetNode(c1)
+	since := n0.LastSeen
+	before, _ := w.st.GetNodeBalance(c1)
+	b0 := new(big.Int).Set(&before.Credit)
+	var wg sync.WaitGroup
+	var emu sync.Mutex
+	var errs []string
+	launch := func(block uint64) {
+		ur := pool.UpdateRequest{PeerInfo: peerInfos([]string{nodeIDOf("h1")}), BlockNumber: block}
+		nonce := w.nextNonce()
+		sig := w.sign(keyFor("c1"), "vipnode_update", nodeIDOf("c1"), nonce, ur)
+		wg.Add(1)
+		go func() {
+			defer wg.Done()
+			if _, err := w.pool.Update(context.Background(), sig, nodeIDOf("c1"), nonce, ur); err != nil {
+				emu.Lock()
+				errs = append(errs, err.Error())
+				emu.Unlock()
+			}
+		}()
+	}
+	arrives := func(d time.Duration) bool {
+		select {
+		case <-gs.arrived:
+			return true
+		case <-time.After(d):
+			return false
+		}
+	}
+	gs.mu.Lock()
+	gs.watch, gs.armed = c1, true
+	gs.mu.Unlock()
+	var mon []string
+	overlap := 0
+	launch(10) // A
+	if arrives(2 * time.Second) {
+		launch(11) // B queues behind A
+		time.Sleep(20 * time.Millisecond)
+		if arrives(30 * time.Millisecond) {
+			overlap++ // B read the node while A is in progress
+		}
+		gs.release <- struct{}{} // A goes on and ends
+		if overlap > 0 || arrives(time.Second) {
+			launch(12) // C arrives while B is in progress
+			if arrives(150 * time.Millisecond) {
+				overlap++
+			}
+			time.Sleep(300 * time.Millisecond)
+		}
+	}
+	close(gs.open)
+	wg.Wait()
+	end := time.Now()
+	after, _ := w.st.GetNodeBalance(c1)
+	charged := new(big.Int).Sub(b0, &after.Credit)
+	elapsed := end.Sub(since)
+	if overlap > 0 {
+		mon = append(mon, fmt.Sprintf("c10-overlapping-updates: a keep-alive of a client read the node while an earlier keep-alive of the same client had not yet recorded its check-in (%d times in a chain of three; %s driver)", overlap, driverNames[drv]))
+	}
+	if charged.Cmp(big.NewInt(int64(elapsed+100*time.Millisecond))) > 0 {
+		mon = append(mon, fmt.Sprintf("c10-chain-billed-more-than-elapsed: three keep-alives of one client were charged %s ns of service although only %d ns passed since its previous check-in: no one-at-a-time ordering charges that (%s driver; errors: %v)", charged, int64(elapsed), driverNames[drv], errs))
+	}
+	ctx.Emit(Case{I: i, Kind: "scheduled-chain-" + driverNames[drv], Desc: map[string]interface{}{"charged_ns": charged.String(), "elapsed_ns": int64(elapsed), "overlaps": overlap, "errors": errs}, Monitor: mon})
+}
+
 // ---------- (iii) no update is lost under free-running concurrency ----------
 
 func c10LostUpdates(ctx *Ctx, i int, drv int) {
@@ -351,6 +466,10 @@ func runC10(ctx *Ctx) {
 		k++
 		if ctx.Want(k) {
 			c10LostUpdates(ctx, k, drv)
+		}
+		k++
+		if ctx.Want(k) {
+			c10UpdateChain(ctx, k, drv)
 		}
 		k++
 	}
